@@ -1,4 +1,5 @@
 import WK.Prelude.Hex
+import WK.Gen.C13
 /-
   C13 — spec.  Core only.
 
@@ -65,13 +66,11 @@ def header : Bytes → Except Err (Nat × Bytes)
   | v :: t :: body => if v.toNat ≠ 1 then .error .corrupt else .ok (t.toNat, body)
   | _ => .error .corrupt
 
-/-- command types whose payload is a JSON document (channel migration), the rest are TLV -/
-def jsonType (t : Nat) : Bool := 30 ≤ t && t ≤ 41
+/-- command types whose decoder does not walk TLV fields (regenerated from the source: currently none) -/
+def jsonType (t : Nat) : Bool := Gen.C13.nonTLVTypes.contains t
 
-/-- every command type `commandDecoders` knows -/
-def knownTypes : List Nat :=
-  [1, 2, 3, 4, 5, 6, 7, 8, 9, 15, 19, 20, 21, 22, 23, 30, 31, 32, 33, 34, 35, 36, 37, 38, 39, 40, 41, 42, 43,
-   44, 45, 46, 47, 48, 49, 50, 51, 52, 53, 54, 55, 56, 57, 59, 63, 64, 65]
+/-- every command type `commandDecoders` knows (regenerated from the source on every run) -/
+def knownTypes : List Nat := Gen.C13.knownTypes
 
 /-- what the wire skeleton alone already decides: `some e` = the command must be refused with `e` -/
 def skeletonVerdict (d : Bytes) : Option Err :=
